@@ -190,6 +190,11 @@ fn trace(run: &mut Run, proto: Protocol, target: IpAddr, signals: bool, rounds: 
             if st.round_count(trippy_core::State::default_flow_id()) != rounds || st.error().is_some() {
                 run.fail("c09-platform-run", format!("{ctx}: returned Ok with {} rounds in the snapshot, error {:?}", st.round_count(trippy_core::State::default_flow_id()), st.error()));
             }
+            // the source address discovered for a loopback target is that loopback address (same family, this host's)
+            match tracer.source_addr() {
+                Some(src) if src == target => {}
+                other => run.fail("c09-platform-run", format!("{ctx}: the source address of the trace is {other:?}, the route to {target} starts at {target}")),
+            }
             // the target is one hop away
             let hops = st.hops();
             let at_target = hops.first().is_some_and(|h| h.ttl() == 1 && h.addrs().any(|a| *a == target));
